@@ -347,6 +347,24 @@ fn c14_hardwrap() {
     println!("NONE {}", cases);
 }
 
+
+/// C16: the trivial decorator produces nothing but document text, whitespace and table borders
+fn c16_trivial() {
+    let docs = ["<p>x<sup>ab</sup> y</p>", "<p><em>a</em> <strong>b</strong> <code>c</code> <a href='u'>d</a> <s>e</s></p>", "<ul><li>f<li>g</ul><ol><li>h</ol>",
+                "<blockquote>i</blockquote><h2>j</h2><dl><dt>k<dd>l</dl>", "<p>m<sup>2</sup><img src='s' alt='n'></p>"];
+    let mut cases = 0u64;
+    for d in docs { for w in [10usize, 40] {
+        cases += 1;
+        let out = match config::with_decorator(html2text::render::TrivialDecorator::new()).unicode_strikeout(false).string_from_read(d.as_bytes(), w) { Ok(o) => o, Err(_) => continue };
+        for ch in out.chars() {
+            if ch.is_whitespace() || ch.is_alphanumeric() && d.contains(ch) { continue; }
+            if ch == '\u{b2}' { continue; } // <sup>2</sup> is rendered with the Unicode superscript digit (document text)
+            found("c16_trivial", &format!("width={} html={}", w, d), &format!("output {:?} contains {:?}, which is neither document text nor whitespace", out, ch));
+        }
+    }}
+    println!("NONE {}", cases);
+}
+
 fn main() {
     let mode = std::env::args().nth(1).unwrap_or_default();
     panic::set_hook(Box::new(|_| {}));
@@ -354,6 +372,7 @@ fn main() {
         "c19" => c19(),
         "c19_inherit" => c19_inherit(),
         "dbg" => dbg(),
+        "c16_trivial" => c16_trivial(),
         "c14_hardwrap" => c14_hardwrap(),
         "c01_specificity" => c01_specificity(),
         "c01_colspan" => c01_colspan(),
